@@ -104,6 +104,14 @@ func report(id string, spec *CheckSpec, o runOpts, results []*unitResult, known 
 			initNotes = append(initNotes, c.InitNotes...)
 		}
 		nativeOK += r.nativeOK
+		for i, sk := range r.skipped {
+			if i < 5 {
+				inconclusive = append(inconclusive, sk)
+			} else {
+				inconclusive = append(inconclusive, fmt.Sprintf("%s: %d further cases not run for the same reason", r.unit.Name, len(r.skipped)-5))
+				break
+			}
+		}
 		for _, b := range r.nativeBad {
 			inconclusive = append(inconclusive, "engine-mismatch: "+b)
 		}
